@@ -118,7 +118,7 @@ def _tail(s, n=25):
 
 
 # ---------------------------------------------------------------------------------------------------
-_RE_KV = re.compile(r'(\w+) \|-> "([^"]*)"')
+_RE_KV = re.compile(r'(\w+)\s*\|->\s*"([^"]*)"')
 
 
 def parse_verdicts(r, n_expected):
@@ -129,6 +129,9 @@ def parse_verdicts(r, n_expected):
     for m in re.finditer(r'<<\s*"VERDICT",\s*(\d+),\s*(TRUE|FALSE),\s*\[(.*?)\]\s*>>', text, re.S):
         tid = int(m.group(1))
         kv = dict(_RE_KV.findall(m.group(3)))
+        if not kv:
+            # a verdict record that cannot be read must never count as "ok"
+            raise MachineryError("unreadable VERDICT record for trace %d: %r" % (tid, m.group(0)[:300]))
         res[tid] = (m.group(2) == "TRUE", kv)
     if r.error is not None or len(res) != n_expected:
         raise MachineryError("trace validation produced %d of %d verdicts; %s" % (len(res), n_expected, r.error or _tail(text)))
